@@ -117,11 +117,28 @@ def check_deps(spec):
         for cls in (DependencyMapper, CachedDependencyMapper):
             res.compared()
             try:
-                got = cls(**fl)(e)
+                inst = cls(**fl)
+                got = inst(e)
             except Exception as exc:
                 res.fail(f"{cls.__name__}:raised:" + exc_site(exc),
                          f"{cls.__name__}({fl})({e!r}): {type(exc).__name__}: {exc}")
                 continue
+            # the same instance asked again about parts of what it has just analysed
+            for _, sub in walk.children(e)[:3]:
+                res.compared()
+                try:
+                    g2 = _keyset(inst(sub))
+                except Exception as exc:
+                    res.fail(f"{cls.__name__}:reused:raised:" + exc_site(exc),
+                             f"second call on {sub!r}: {exc!r}")
+                    continue
+                w2 = _keyset(ref_deps(sub, eff))
+                if g2 != w2:
+                    res.fail(f"{cls.__name__}:reused-instance-differs",
+                             f"{cls.__name__}({fl}) after analysing {e!r}: second call on "
+                             f"{sub!r} gives {sorted(map(str, g2))[:6]}, expected "
+                             f"{sorted(map(str, w2))[:6]}")
+                    break
             gk = _keyset(got)
             tag = ",".join(f"{k[8:] if k.startswith('include_') else k}={v}"
                            for k, v in sorted(eff.items()))
